@@ -61,7 +61,7 @@ theorem shutdown_calls (s : St) (j : Nat) :
   unfold shutdown clearResolved
   cases s.rcancel <;> cases s.rel <;> cases hres : s.resolved <;> simp [hres]
 
-@[simp] theorem shutdown_cur (s : St) : (shutdown s).cur = none := by
+@[simp] theorem shutdown_cur (s : St) : (shutdown s).cur = if s.resolved then none else s.cur := by
   unfold shutdown clearResolved
   cases s.rcancel <;> cases s.rel <;> cases hres : s.resolved <;> simp [hres]
 
@@ -137,12 +137,5 @@ theorem shutdown_calls_length (s : St) : (shutdown s).calls.length = s.calls.len
   unfold shutdown clearResolved cancelCall markReleased
   cases s.rcancel <;> cases s.rel <;> cases hres : s.resolved <;> simp [hres] <;>
     (repeat' split) <;> simp
-
-theorem shutdown_pend (s : St) : (shutdown s).pend =
-    addBatch (if s.resolved then addBatch s.pend (cbItems s.th false 0 0) else s.pend)
-      (match s.rel with
-       | some i => [.rel i (invOf (shutdown s).calls i) (shutdown s).target]
-       | none => []) := by
-  sorry
 
 end UtilModel.RefCount
